@@ -464,11 +464,34 @@ def run_e2e(req):
     table = lambda a, b: D[int(a[0])][int(b[0])]
     X = np.array([[float(i)] for i in range(n)])
     Y = np.array(labels, dtype=int)
+    scored = []
     if model == "knn":
+        import opfython.models.knn_supervised as km
         opf = KNNSupervisedOPF(max_k=max_k)
-        opf.distance_fn = table
-        Xv = np.array([[float(n + i)] for i in range(nv)])
-        opf.fit(X, Y, Xv, np.array(vlabels, dtype=int))
+        Yv = np.array(vlabels, dtype=int)
+        if cfg.get("branch") == "pre":
+            opf.pre_computed_distance = True
+            opf.pre_distances = np.array([r[:n] for r in D[:n]], dtype=float)
+            X = np.zeros((n, 1))
+            I = np.arange(n)
+            Xv = np.zeros((nv, 1))
+            Iv = np.array(cfg["ival"], dtype=int)
+        else:
+            opf.distance_fn = table
+            Xv = np.array([[float(n + i)] for i in range(nv)])
+            I = Iv = None
+        real_acc = km.g.opf_accuracy
+
+        def spy(a1, a2):
+            truth = [int(x) for x in KNNSupervisedOPF.predict(opf, Xv, Iv)]
+            scored.append(dict(k=int(opf.subgraph.best_k), labels=[int(x) for x in a1], preds=[int(x) for x in a2],
+                               truth=truth, acc=float(real_acc(Yv, np.array(truth)))))
+            return real_acc(a1, a2)
+        km.g.opf_accuracy = spy
+        try:
+            opf.fit(X, Y, Xv, Yv, I, Iv)
+        finally:
+            km.g.opf_accuracy = real_acc
     else:
         opf = UnsupervisedOPF(min_k=1, max_k=max_k)
         opf.distance_fn = table
@@ -480,6 +503,19 @@ def run_e2e(req):
     pred = [int(nd.pred) for nd in nodes]
     dens = [float(nd.density) for nd in nodes]
     bad = []
+    if model == "knn":
+        if [sc["k"] for sc in scored] != list(range(1, max_k + 1)):
+            bad.append("every-candidate-k-is-scored-once")
+        for sc in scored:
+            if sc["labels"] != [int(x) for x in vlabels]:
+                bad.append("scored-against-the-validation-labels[k%d]" % sc["k"])
+            if sc["preds"] != sc["truth"]:
+                bad.append("scored-predictions-are-the-candidate's-validation-predictions[k%d]" % sc["k"])
+        if scored and not bad:
+            accs = [sc["acc"] for sc in scored]
+            want = min(j for j in range(len(accs)) if accs[j] == max(accs)) + 1
+            if int(g.best_k) != want:
+                bad.append("best-k-is-the-least-argmax-of-validation-accuracy")
     roots = []
     for i in range(n):
         ch = chain(pred, i, n)
